@@ -3,7 +3,7 @@
 From Coq Require Import ZArith Bool Lia ZifyBool List.
 From ReqV Require Import Lib.GoInt Gen.H2Flow Model.H2Flow Model.H2Monitor Model.H2Conn Model.H2TraceSpec
                          Proofs.GoIntFacts Proofs.H2FlowProofs Proofs.H2ConnProofs Proofs.H2CreditProofs
-                         Proofs.H2MonitorFacts.
+                         Proofs.H2MonitorFacts Proofs.H2WireOrder.
 Import ListNotations.
 Open Scope Z_scope.
 
@@ -413,4 +413,34 @@ Proof.
   assert (H : mon_steps mon0 (preface kvs cf prios ++ trace_of pl pla (last_setting S_INITIAL_WINDOW_SIZE kvs 65535) cf evs) = Some mf).
   { rewrite mon_steps_app, preface_ok. exact Hs. }
   rewrite (monitor_run_steps _ _ _ 0%nat H). reflexivity.
+Qed.
+
+(* ---- the same trace as the peer sees it ---- *)
+Lemma plain_cev_ok : forall e, plain e -> cev_ok e.
+Proof. intros [f|f]; destruct f; simpl; auto. Qed.
+
+Lemma step_cev_ok : forall c e, Forall cev_ok (snd (conn_step c e)).
+Proof.
+  intros c e. destruct (step_shape c e) as [H|[kvs H]].
+  - eapply Forall_impl; [apply plain_cev_ok|exact H].
+  - rewrite H. repeat constructor.
+Qed.
+
+Lemma run_cev_ok : forall evs c, Forall cev_ok (snd (conn_run c evs)).
+Proof.
+  induction evs as [|e r IH]; intros c; cbn [conn_run]; [constructor|].
+  pose proof (step_cev_ok c e) as H1. destruct (conn_step c e) as [c1 o1]. specialize (IH c1).
+  destruct (conn_run c1 r) as [c2 o2]. cbn [snd] in *. apply Forall_app. auto.
+Qed.
+
+(* every trace obtained from the client-order trace by moving peer frames ahead of client
+   frames (the order in which the peer's own log has them) is accepted as well *)
+Theorem wire_order_admissible : forall prio_len prio_last stream_in conn_flow,
+  cfg_ok prio_len prio_last stream_in conn_flow ->
+  forall evs t', earlier (mon_init stream_in conn_flow) (trace_of prio_len prio_last stream_in conn_flow evs) t' ->
+  accepts (mon_init stream_in conn_flow) t' = true.
+Proof.
+  intros pl pla si cf Hc evs t' He. destruct (accept_all pl pla si cf Hc evs) as (mf & Hs & _).
+  destruct (wire_order_accepted _ _ _ He (run_cev_ok evs _) mf Hs) as (mf' & Hs' & _).
+  unfold accepts. rewrite (monitor_run_steps _ _ _ 0%nat Hs'). reflexivity.
 Qed.
